@@ -425,6 +425,33 @@ def p_docstring_pass(x, y):
     return x - y
 
 
+# helpers that read module-level constants by bare name; callers whose own parameters / locals carry the same names
+# (Python resolves the helper's name in the helper's globals, never in the caller's scope)
+KM_CONST = 0.5
+SCALE_CONST = 3.0
+
+
+def helper_saturation_const(s):
+    return s / (KM_CONST + s)
+
+
+def helper_scaled_const(x):
+    return SCALE_CONST * x
+
+
+def p_call_helper_const_vs_param(s, KM_CONST):  # noqa: N803
+    return helper_saturation_const(s) * KM_CONST
+
+
+def p_call_helper_const_vs_local(a, b):
+    SCALE_CONST = a + b  # noqa: N806
+    return helper_scaled_const(a) - SCALE_CONST
+
+
+def p_call_helper_const_plain(s, v):
+    return helper_saturation_const(s) * v
+
+
 PROGRAMS = [v for k, v in sorted(globals().items()) if k.startswith("p_") and callable(v)]
 # constructs with an open finding on the pinned tree: kept out of composites, probed individually
 FINDING_PROBES = {"p_if_assign_branch", "p_if_else_assign_then_return", "p_return_in_else_only"}
